@@ -168,12 +168,12 @@ def build_one(prog: dict[str, Any], root: str, native: bool, strength2: bool = T
     from mypy.modulefinder import BuildSource
 
     os.chdir(root)
+    quiet_fd2()
     options = make_options(prog, native, strength2)
     if prog.get("main") is not None:
         sources = [BuildSource("main", "__main__", prog["main"])]
     else:
-        path, mod = prog["entry"]
-        sources = [BuildSource(path, mod, None)]
+        sources = [BuildSource(path, mod, None) for path, mod in (prog.get("entries") or [prog["entry"]])]
     sys.path.insert(0, PLUGIN_DIR)
     blocker = False
     crashed = None
@@ -192,7 +192,7 @@ def build_one(prog: dict[str, Any], root: str, native: bool, strength2: bool = T
         crashed = f"SystemExit({e.code})"
     except BaseException as e:  # noqa: BLE001 - a crash of one parser is an observation, not a harness error
         msgs = []
-        crashed = f"{type(e).__name__}: {str(e)[:200]}"
+        crashed = exc_kind(e)
     finally:
         sys.stdout, sys.stderr = real
         if sys.path and sys.path[0] == PLUGIN_DIR:
@@ -201,13 +201,44 @@ def build_one(prog: dict[str, Any], root: str, native: bool, strength2: bool = T
     return {"messages": list(msgs), "blocker": blocker, "crashed": crashed}
 
 
+def quiet_fd2() -> None:
+    """In a throw-away child: send file descriptor 2 to /dev/null (a panic of the Rust parser writes there directly)."""
+    try:
+        fd = os.open(os.devnull, os.O_WRONLY)
+        os.dup2(fd, 2)
+        os.close(fd)
+    except OSError:
+        pass
+
+
+def exc_kind(e: BaseException) -> str:
+    """Cause-level description of an exception: type, start of the message, innermost frame inside /repo."""
+    import traceback
+
+    where = ""
+    for fr in reversed(traceback.extract_tb(e.__traceback__)):
+        if fr.filename.startswith("/repo/"):
+            where = f" @ {fr.filename[len('/repo/'):]}:{fr.name}"
+            break
+    return _norm_exc(f"{type(e).__name__}: {str(e)[:100]}") + where
+
+
+def _norm_exc(s: str) -> str:
+    s = re.sub(r"0x[0-9a-fA-F]+", "0x_", s)
+    return re.sub(r"\d+", "N", s)
+
+
 def crash_of(crashed: str | None, out: str, err: str) -> str | None:
-    """Crash description: exception kind first (from the traceback mypy prints with show_traceback)."""
+    """Crash description in the format of exc_kind, from the traceback mypy prints (show_traceback) when it
+    reports an INTERNAL ERROR itself."""
+    if crashed is not None and not crashed.startswith("SystemExit"):
+        return crashed
     if crashed is None and not ("INTERNAL ERROR" in err or "Traceback (most recent call last)" in out + err):
         return None
-    tb = [ln for ln in (out + "\n" + err).splitlines() if re.match(r"^[A-Za-z_.]+(Error|Exception|Exit|Interrupt)\b", ln)]
-    kind = tb[-1][:160] if tb else (crashed or "INTERNAL ERROR")
-    where = [ln.strip() for ln in (out + err).splitlines() if ln.strip().startswith("File \"/repo/")]
+    lines = (out + "\n" + err).splitlines()
+    tb = [ln for ln in lines if re.match(r"^[A-Za-z_.]+(Error|Exception|Exit|Interrupt)\b", ln)]
+    kind = _norm_exc(tb[-1][:120]) if tb else (crashed or "INTERNAL ERROR")
+    where = [ln.strip() for ln in lines if ln.strip().startswith('File "/repo/')]
     if where:
         m = re.search(r'File "/repo/([^"]+)", line \d+, in (\w+)', where[-1])
         if m:
